@@ -22,11 +22,16 @@ class AllFunctions:
     set iff the function is true under assignment a.
     """
 
-    def __init__(self, n, order, via=None, mgr=None):
+    def __init__(self, n, order, via=None, mgr=None, extra_top=None):
         self.n = n
         self.names = NAMES[:n]
         self.bdd = _bdd.BDD() if mgr is None else mgr
         start = list(via) if via else list(order)
+        self.off = 0
+        if extra_top:
+            # an unused variable ABOVE all others, removed again after the build
+            self.bdd.add_var(extra_top)
+            self.off = 1
         for nm in start:
             self.bdd.add_var(nm)
         self.ext = {}
@@ -37,6 +42,9 @@ class AllFunctions:
         for tt in range(full + 1):
             r = self._build(0, tt)
             self.ref_of[tt] = r
+        if extra_top:
+            self.bdd.undeclare_vars(extra_top)
+            self.off = 0
         for tt, r in self.ref_of.items():
             self.bdd.incref(r)
             self.ext[abs(r)] = self.ext.get(abs(r), 0) + 1
@@ -75,7 +83,7 @@ class AllFunctions:
         else:
             lo = self._build(level + 1, t0)
             hi = self._build(level + 1, t1)
-            r = self.bdd.find_or_add(level, lo, hi)
+            r = self.bdd.find_or_add(level + self.off, lo, hi)
         self._memo[key] = r
         return r
 
@@ -720,16 +728,16 @@ def parse_dot(text):
     return nodes, edges
 
 
-def c18_sweep_task(shard, tid, n, order, via, us_stride, us_offset, seed, tmpdir):
+def c18_sweep_task(shard, tid, n, order, via, us_stride, us_offset, seed, tmpdir, extra_top=None):
     import os
     import dd.autoref as _autoref
     rng = random.Random(seed)
     os.makedirs(tmpdir, exist_ok=True)
     ab = _autoref.BDD()
-    af = AllFunctions(n, order, via=via, mgr=ab._bdd)
+    af = AllFunctions(n, order, via=via, mgr=ab._bdd, extra_top=extra_top)
     b = af.bdd
     refs = af.refs()[us_offset::us_stride]
-    sf = SweepFile(shard, tid, af, meta=dict(driver='c18_sweep', n=n))
+    sf = SweepFile(shard, tid, af, meta=dict(driver='c18_sweep', n=n, extra_top=extra_top or ''))
     fps = set()
     # ---- Shannon expansion through Function.var/low/high/negated/level and BDD.succ
     for route in ('Function', 'succ'):
